@@ -36,17 +36,25 @@ def plan(tier):
             {"lane": "zero-bound", "n": 24 if q else 600, "timeout": 1200 if q else 3400, "min_per_shard": 1, "max_shards": 32},
             # numerical edge: one parameter is tiny in absolute terms (a per-capita rate for a population of 1e9..1e11: the model is
             # re-parameterised as (F*p) with p = value/F), so that its whole box [0.3p, 3p] is narrower than 1e-8
-            {"lane": "tiny-parameter", "n": 16 if q else 400, "timeout": 1200 if q else 3400, "min_per_shard": 1, "max_shards": 32}]
+            {"lane": "tiny-parameter", "n": 16 if q else 400, "timeout": 1200 if q else 3400, "min_per_shard": 1, "max_shards": 32},
+            # pinned reproducer of the defect repaired by /repo 1e52d8d (fit handed back the point of an abnormal L-BFGS-B termination):
+            # the generated case in which it was found - Influenza_SLIARD, Gamma loss, interior start - replayed by its generator seed
+            {"lane": "pinned-abnormal-termination", "n": 1, "timeout": 1200, "min_per_shard": 1, "max_shards": 1}]
 
 
 def floors(tier):
     return {"nontrivial": 12, "counter:fits": 100, "counter:truth_clause_checks": 20, "counter:box_checks": 100, "counter:no_worse_checks": 80,
             "counter:active_bound_fits": 15, "class:Square": 8, "class:Normal": 5, "class:Gamma": 3,
             "counter:zero_bound_fits": 20, "counter:half_open_box_fits": 20, "class:tiny-parameter": 8, "counter:sibling_calls": 30, "class:x0-ndarray-shared": 15, "counter:zero_bound_active": 5,
-            "class:target_param": 8, "counter:refused_assignments": 15, "counter:other_model_first_calls": 10}
+            "class:target_param": 8, "counter:refused_assignments": 15, "counter:other_model_first_calls": 10, "counter:pinned_abnormal_termination_replays": 1}
 
 
 def run_case(rng, idx, tier, lane, ctx):
+    if lane == "pinned-abnormal-termination":
+        from verifkit.common import derive_rng
+        res = run_case(derive_rng("C18", "thorough", 1, "catalogue", 258), 258, "thorough", "catalogue", ctx)
+        res.setdefault("counters", {})["pinned_abnormal_termination_replays"] = 1
+        return res
     counters = {"fits": 0, "truth_clause_checks": 0, "box_checks": 0, "no_worse_checks": 0, "active_bound_fits": 0, "fit_raised": 0,
                 "zero_bound_fits": 0, "zero_bound_active": 0}
     wit = []
